@@ -135,17 +135,45 @@ Definition accepting (st : jstate) : bool :=
 Definition json_valid (s : string) : bool :=
   match json_run init s with Some st => accepting st | None => false end.
 
+(* --- number literals --------------------------------------------------------------------------- *)
+
+(* a JSON number literal, stated without the pushdown machine: first character, then num_step *)
+Definition num_start (c : N) : option numst :=
+  if c =? 45 then Some NMinus else if c =? 48 then Some NZero else if is_digit19 c then Some NInt else None.
+
+Fixpoint num_run (s : numst) (t : string) : option numst :=
+  match t with
+  | EmptyString => Some s
+  | String a r => match num_step s (N_of_ascii a) with Some s' => num_run s' r | None => None end
+  end.
+
+Definition is_number (t : string) : bool :=
+  match t with
+  | EmptyString => false
+  | String a r =>
+      match num_start (N_of_ascii a) with
+      | Some s => match num_run s r with Some s' => num_final s' | None => false end
+      | None => false
+      end
+  end.
+
 (* --- pieces with holes ---------------------------------------------------------------------- *)
 
 (* StrHole: any JSON-string-safe text, only inside a string.
    NumHole: a number printed by Go: a whole value where a value is expected, or text inside a string.
    ValHole: json.Marshal output: a whole value where a value is expected. *)
+Definition value_expected (m : mode) : bool :=
+  match m with MValue | MArrFirst => true | _ => false end.
+
 Definition piece_step (st : jstate) (p : piece) : option jstate :=
   match p with
   | Lit s => json_run st s
   | StrHole => match fst st with MStr _ => Some st | _ => None end
-  | NumHole => match fst st with MStr _ => Some st | MValue => Some (MAfter, snd st) | _ => None end
-  | ValHole => match fst st with MValue => Some (MAfter, snd st) | _ => None end
+  | NumHole => match fst st with
+               | MStr _ => Some st
+               | m => if value_expected m then Some (MAfter, snd st) else None
+               end
+  | ValHole => if value_expected (fst st) then Some (MAfter, snd st) else None
   end.
 
 Fixpoint pieces_run (st : jstate) (ps : list piece) : option jstate :=
@@ -157,7 +185,18 @@ Fixpoint pieces_run (st : jstate) (ps : list piece) : option jstate :=
 Definition pieces_valid (ps : list piece) : bool :=
   match pieces_run init ps with Some st => accepting st | None => false end.
 
-(* --- the skeleton of a template ------------------------------------------------------------- *)
+(* The texts a list of pieces stands for.  The hole languages are the trusted description of what Go
+   prints there: StrHole - any JSON-string-safe text (time.Format output, String methods);
+   NumHole - a JSON number literal (fmt %v of Go integers and finite floats);
+   ValHole - a text json.Valid accepts (json.Marshal output). *)
+Inductive inst : list piece -> string -> Prop :=
+| inst_nil : inst [] EmptyString
+| inst_lit : forall s ps r, inst ps r -> inst (Lit s :: ps) (s ++ r)
+| inst_str : forall h ps r, safe_string h = true -> inst ps r -> inst (StrHole :: ps) (h ++ r)
+| inst_num : forall h ps r, is_number h = true -> inst ps r -> inst (NumHole :: ps) (h ++ r)
+| inst_val : forall h ps r, json_valid h = true -> inst ps r -> inst (ValHole :: ps) (h ++ r).
+
+(* --- abstract run of a template over the recogniser ------------------------------------------- *)
 
 (* what an action of this static type prints *)
 Definition hole_of (sch : schema) (st : sty) : option piece :=
@@ -168,44 +207,106 @@ Definition hole_of (sch : schema) (st : sty) : option piece :=
   | _ => None
   end.
 
-(* every way the template text and holes can be laid out: if-branches are enumerated; range is
-   not supported in a JSON template *)
-Definition seq_skel (f : node -> option (list (list piece))) : list node -> option (list (list piece)) :=
-  fix go (ns : list node) : option (list (list piece)) :=
-    match ns with
-    | [] => Some [[]]
-    | n :: r =>
-        match f n, go r with
-        | Some a, Some b => Some (flat_map (fun x => map (fun y => x ++ y) b) a)
-        | _, _ => None
-        end
-    end.
+Definition frame_eq_dec : forall a b : frame, {a = b} + {a <> b}.
+Proof. decide equality. Defined.
+Definition numst_eq_dec : forall a b : numst, {a = b} + {a <> b}.
+Proof. decide equality. Defined.
+Definition mode_eq_dec : forall a b : mode, {a = b} + {a <> b}.
+Proof.
+  decide equality; try apply Bool.bool_dec; try apply PeanoNat.Nat.eq_dec; try apply numst_eq_dec;
+    apply String.string_dec.
+Defined.
+Definition jstate_eq_dec : forall a b : jstate, {a = b} + {a <> b}.
+Proof. decide equality; [apply (list_eq_dec frame_eq_dec) | apply mode_eq_dec]. Defined.
 
-Fixpoint skel_node (sch : schema) (facts : list path) (dot : sty) (n : node) {struct n} : option (list (list piece)) :=
-  match n with
-  | NText s => Some [[Lit s]]
-  | NAction p =>
-      match ty_pipe sch facts dot p with
-      | Some st => match hole_of sch st with Some h => Some [[h]] | None => None end
-      | None => None
-      end
-  | NIf p th el =>
-      match ty_pipe sch facts dot p, seq_skel (skel_node sch facts dot) th, seq_skel (skel_node sch facts dot) el with
-      | Some _, Some a, Some b => Some (a ++ b)
-      | _, _, _ => None
-      end
-  | NRange _ _ _ | NOther _ => None
+(* a complete number may still be extended by digits; "after a value" is the state that only allows what
+   both allow *)
+Definition norm (x : jstate) : jstate :=
+  match x with
+  | (MNum s, k) => if num_final s then (MAfter, k) else x
+  | _ => x
   end.
 
-Definition skel_list (sch : schema) (facts : list path) (dot : sty) : list node -> option (list (list piece)) :=
-  seq_skel (skel_node sch facts dot).
+Definition join (x y : jstate) : option jstate :=
+  if jstate_eq_dec x y then Some x
+  else if jstate_eq_dec (norm x) (norm y) then Some (norm x) else None.
 
-Definition skeletons (sch : schema) (facts : list path) (t : tmpl) : option (list (list piece)) :=
-  skel_list sch facts (root_sty sch) t.
+(* string constants written in the template itself may be printed: they must be JSON-string-safe *)
+Definition arg_safe (a : arg) : bool := match a with AStr s => safe_string s | _ => true end.
+Definition cmd_safe (c : cmd) : bool :=
+  match c with
+  | CArgs f r => arg_safe f && forallb arg_safe r
+  | CCall _ args => forallb arg_safe args
+  end.
+Definition pipe_safe (p : pipe) : bool := forallb cmd_safe p.
+
+Definition seq_arun (f : node -> jstate -> option jstate) : list node -> jstate -> option jstate :=
+  fix go (ns : list node) (st : jstate) {struct ns} : option jstate :=
+    match ns with
+    | [] => Some st
+    | n :: r => match f n st with Some st' => go r st' | None => None end
+    end.
+
+(* The recogniser state after the node, whatever the data: text is run, an action is a hole of its static
+   type, the two branches of an if must meet in one state, the body of a range must come back to the state
+   it started in (loop invariant: any number of iterations) and so must its else branch. *)
+Fixpoint arun_node (sch : schema) (facts : list path) (dot : sty) (n : node) (st : jstate) {struct n}
+  : option jstate :=
+  match n with
+  | NText s => json_run st s
+  | NAction p =>
+      if pipe_safe p then
+        match ty_pipe sch facts dot p with
+        | Some t => match hole_of sch t with Some h => piece_step st h | None => None end
+        | None => None
+        end
+      else None
+  | NIf p th el =>
+      match ty_pipe sch facts dot p with
+      | Some _ =>
+          match seq_arun (arun_node sch facts dot) th st, seq_arun (arun_node sch facts dot) el st with
+          | Some a, Some b => join a b
+          | _, _ => None
+          end
+      | None => None
+      end
+  | NRange p body el =>
+      if pipe_safe p then
+        match ty_pipe sch facts dot p with
+        | Some (mkSty (TSlice et) pa _) =>
+            match seq_arun (arun_node sch facts (mkSty et (path_app pa PElem) false)) body st,
+                  seq_arun (arun_node sch facts dot) el st with
+            | Some a, Some b => if jstate_eq_dec a st then join st b else None
+            | _, _ => None
+            end
+        | _ => None
+        end
+      else None
+  | NOther _ => None
+  end.
+
+Definition arun (sch : schema) (facts : list path) (t : tmpl) : option jstate :=
+  seq_arun (arun_node sch facts (root_sty sch)) t init.
+
+Definition names_safe (sch : schema) : bool :=
+  forallb safe_string (sch_status_unknown sch :: sch_status_names sch).
 
 Definition json_skeleton_ok (sch : schema) (facts : list path) (t : tmpl) : bool :=
-  forallb safe_string (sch_status_unknown sch :: sch_status_names sch) &&
-  match skeletons sch facts t with
-  | Some sks => forallb pieces_valid sks
+  names_safe sch &&
+  match arun sch facts t with
+  | Some st => accepting st
   | None => false
+  end.
+
+(* JSON-safe data: every string is JSON-string-safe, every float finite, no marshalled text *)
+Fixpoint safe_val (v : value) : bool :=
+  match v with
+  | VStr s => safe_string s
+  | VAbsStr j => negb j
+  | VFloat fin => fin
+  | VPtr v => safe_val v
+  | VStruct _ fs => forallb (fun p => safe_val (snd p)) fs
+  | VSlice _ l => forallb safe_val l
+  | VMap _ kv => forallb (fun p => safe_val (snd p)) kv
+  | _ => true
   end.
